@@ -32,6 +32,12 @@ def run(ctx, rep):
         # (shared with C02)
         from props import c02
         c02.check_lookup(crate, rep, cfg)
+        # "every string produced is valid text", "not a panic": the string results of indexing / slicing are built through SmartString's
+        # reviewed constructors (C07.UTF8, shared) and the panic-capable sites of value/mod.rs are the reviewed ones (R-PANIC, shared)
+        from props import c07
+        c07.check_utf8(crate, rep, cfg)
+        import rpanic
+        rpanic.check(crate, rep, "R-PANIC.value", ("value/mod.rs",), cfg, 10)
 
 
 def is_char_index_call(name):
